@@ -69,6 +69,7 @@ BlockOf(e, ls) ==
     [h    |-> IF e.pk = "none" THEN 11 ELSE 10 + e.dh,
      hash |-> 2,
      prev |-> IF e.pm THEN 1 ELSE 3,
+     bad  |-> "none",
      act  |-> [p \in Pools |-> PoolIdx(p) <= e.act],
      meta |-> MetaOf(e, ls),
      txs  |-> Decorate(ls)]
